@@ -191,7 +191,8 @@ func (c CanonChoice) Effective() dsig.Canonicalizer {
 // message. It returns "" or a (key, message) describing the first failed requirement.
 func VerifyEnveloped(xmlText string, want *sim.Cert, hash crypto.Hash, canon dsig.Canonicalizer, now time.Time) (string, string) {
 	doc := etree.NewDocument()
-	if err := doc.ReadFromString(xmlText); err != nil {
+	// the recipient is a conforming XML processor: literal TAB/LF/CR inside attribute values reach it as spaces
+	if err := doc.ReadFromString(sim.ConformingView(xmlText)); err != nil {
 		return "not-well-formed", fmt.Sprintf("serialised message does not parse: %v", err)
 	}
 	root := doc.Root()
@@ -310,7 +311,7 @@ func verifyRaw(k *sim.Key, h crypto.Hash, digest, sig []byte) bool {
 // ---- configuration strings (DESIGN §2.2), restricted to what can sit in the given position ----
 
 // ConfigString draws a value for an outbound configuration or argument string.
-// attr says the value ends up in an XML attribute (CR excluded there: finding K3).
+// attr says the value ends up in an XML attribute (class "cr-attr" marks U+000D there, the former finding K3).
 func ConfigString(r *rand.Rand, def string, attr bool) (string, string) {
 	if r.IntN(3) == 0 {
 		return def, "default"
@@ -321,9 +322,6 @@ func ConfigString(r *rand.Rand, def string, attr bool) (string, string) {
 			continue
 		}
 		if attr && c == "cr" {
-			if r.IntN(30) != 0 {
-				continue
-			}
 			return v, "cr-attr"
 		}
 		if c == "empty" {
